@@ -22,7 +22,7 @@ def run(out, tier, rng, work):
     n = 150 if tier == 'quick' else 3000
     runs, worst = [], {}
     for k in range(n):
-        sc = tpconf.gen(rng, k, big=(k % 20 == 0), presend=True)
+        sc = tpconf.gen(rng, k, big=(k % 10 == 0), presend=True)
         res = tpconf.runner(sc)
         runs.append((sc, res))
         out.add_case(scen.sc_hash(sc), sum(1 for e in res.trace if e[2] == 'tx') > 2,
